@@ -19,7 +19,7 @@ Import ListNotations.
 Require Import TV.Base.EP TV.Base.EPSound TV.Base.Amp TV.Model.Lane TV.Spec.Born TV.gen.Gen_instructions TV.gen.Gen_channel_tables
   TV.Model.GateCheck TV.Model.InstrCheck TV.Model.KrausCheck TV.Proofs.GateProofs TV.Proofs.InstrProofs
   TV.Proofs.CircuitProofs TV.Proofs.CircuitTheorem TV.Proofs.DenseBridge TV.Proofs.KrausSem TV.Proofs.KrausLocal TV.Proofs.KrausTheorem
-  TV.Proofs.KrausGates TV.Proofs.KrausCircuit.
+  TV.Proofs.KrausGates TV.Proofs.KrausCircuit TV.Proofs.KrausBorn.
 
 (* M MX MY MR MRX MRY x {plain, inverted} x {noiseless, noisy} x {existing lane, fresh lane} x all bits:
    Kraus(reported r, inversion inv, noise e) = projector / projector-and-reprepare onto outcome r xor inv xor e *)
@@ -115,6 +115,27 @@ Theorem C01_circuit_dense :
     = Amp.scale R rmul (rmul (E e) C)
         (cspec R rO rI radd rmul ropp E half ta tb tc b (kinit R rO rI n) c (kpsi R (kinit R rO rI n))).
 Proof. exact circuit_kraus_dense. Qed.
+
+(* THE BORN WEIGHT.  In every commutative ring with a character E, half and a conjugation (conj E(q) = E(-q), conj half = half;
+   true of C with E q = e^{i pi q}): the squared norm of the final dense vector of the lane program -- what the doubled diagram
+   g ; g-adjoint evaluates for one assignment b of record, silent and error bits -- equals |C|^2 times the squared norm of the
+   ordered product of the documented Kraus operators applied to |0...0>, with C chosen before b.  Summed over the silent bits this
+   is, up to the single constant |C|^2, the quantum-mechanical probability of the record (for the error bits in b). *)
+Theorem C01_born_weight :
+  forall (R : Type) (rO rI : R) (radd rmul rsub : R -> R -> R) (ropp : R -> R),
+  ring_theory rO rI radd rmul rsub ropp eq ->
+  forall E : Qc -> R, (forall a b, E (a + b)%Qc = rmul (E a) (E b)) -> E 0%Qc = rI -> E 1%Qc = ropp rI ->
+  forall half : R, radd half half = rI ->
+  forall conj : R -> R, (forall a b, conj (radd a b) = radd (conj a) (conj b)) -> (forall a b, conj (rmul a b) = rmul (conj a) (conj b)) ->
+  conj rI = rI -> (forall q, conj (E q) = E (- q)%Qc) -> conj half = half -> forall ta tb tc : Qc,
+  forall (n : nat) (c : list cinstr) (ops : list (op nat)), ccircuit_ops c = Some ops -> forallb (cinstr_lanes_ok n) c = true ->
+  ccircuit_ok R rO rI radd rmul ropp E half ta tb tc (kinit R rO rI n) c = true ->
+  exists C, sq2 R rO rI radd rmul ropp E half ta tb tc C /\ forall b,
+    eval R rO rI radd rmul ropp E half ta tb tc (norm2 (final_vec (run n b ops (init_state n))))
+    = rmul (sqabs R rmul conj C)
+        (rsum R rO radd (map (fun i => sqabs R rmul conj (cspec R rO rI radd rmul ropp E half ta tb tc b (kinit R rO rI n) c (kpsi R (kinit R rO rI n)) (Nat.testbit i)))
+                             (seq 0 (dim n)))).
+Proof. exact born_weight. Qed.
 
 (* MPP is inside the domain of the composition theorem: the program drawn for `MPP P1*...*Pk` (noiseless) IS the program of the
    circuit `R aux; H aux; C-P1 aux q1; ...; C-Pk aux qk; H aux; M aux` (each C-P with the auxiliary lane as control), so a circuit
